@@ -3,7 +3,7 @@
 cd /verif
 one() {
   d=$1; id=$(basename $d)
-  T=$(mktemp -d /dev/shm/sa_sm.XXXXXX); cp -r /repo/norminette "$T/norminette"; find "$T" -name __pycache__ -prune -exec rm -rf {} +
+  T=$(mktemp -d /dev/shm/sa_sm.XXXXXX); git -C /repo archive HEAD norminette | tar -x -C "$T"; find "$T" -name __pycache__ -prune -exec rm -rf {} +
   if ! (cd "$T" && patch -s -p1 -f < /verif/$d/patch.diff >/dev/null 2>&1); then echo "$id: patch does not apply to the current tree"; rm -rf "$T"; return; fi
   out=$(SA_REPO="$T" SA_EVIDENCE_DIR="$T/ev" /venv/bin/python -m sa all 2>&1 | grep -E "^(VIOLATION|ANALYSIS-ERROR)" | sed -E 's/VIOLATION property=(C[0-9]+).*/\1:1/; s/ANALYSIS-ERROR property=(C[0-9]+).*/\1:2/' | sort -u | tr '\n' ' ')
   echo "$id -> $out"
